@@ -46,13 +46,16 @@ class Block(DfBase[ops.DataflowBlock]):
         try:
             super()._wire_up_port(node, offset, p)
         except NoSiblingAncestor as e:
-            # note this just checks if there is a common CFG ancestor
-            # it does not check for valid dominance between basic blocks
-            # that is deferred to full HUGR validation.
-            while cfg_node != src_parent:
-                if src_parent is None or src_parent == self.hugr.root:
+            # A dominator edge: the source must sit directly inside another
+            # block of the same CFG (dominance itself is not checked here).
+            if src_parent is None or self.hugr[src_parent].parent != cfg_node:
+                # Nested deeper inside another block the value is not visible
+                # from here; otherwise the source is not in this CFG at all.
+                while src_parent is not None and src_parent != cfg_node:
+                    src_parent = self.hugr[src_parent].parent
+                if src_parent is None:
                     raise NotInSameCfg(src.node.idx, node.idx) from e
-                src_parent = self.hugr[src_parent].parent
+                raise
 
             self.hugr.add_link(src, node.inp(offset))
         return self._get_dataflow_type(src)
